@@ -257,7 +257,7 @@ class ParsersWorld:
             seams.HOOKS.io = None
             os.chdir(self.workroot)
             shutil.rmtree(cwd, ignore_errors=True)
-        st["stats"].update(clock_jumps=clk.jumps, clock_reads_by_library=clk.lib_reads, clock_slept_s=int(clk.slept))
+        st["stats"].update(clock_jumps=clk.jumps, clock_reads_by_library=clk.lib_reads, clock_slept_s=int(clk.slept), clock_jumped_s=int(clk.jumped_s))
         self._env_stats(st["stats"])
         return self._result(st.get("trace_override") or trace, log, st, extra={"line_points": S.line_points})
 
@@ -891,7 +891,7 @@ class ParsersWorld:
             seams.HOOKS.sys = None
             os.chdir(self.workroot)
             shutil.rmtree(cwd, ignore_errors=True)
-        st["stats"].update(clock_jumps=clk.jumps, clock_reads_by_library=clk.lib_reads, clock_slept_s=int(clk.slept))
+        st["stats"].update(clock_jumps=clk.jumps, clock_reads_by_library=clk.lib_reads, clock_slept_s=int(clk.slept), clock_jumped_s=int(clk.jumped_s))
         trace_out = dict(trace)
         trace_out.pop("order", None)
         trace_out["schedule"] = chooser.recorded
